@@ -359,3 +359,25 @@ Example C02_ex_normalise :
     Ok (VDict [([x6e], VInt 1); ([x66], VBool true)], [x01; x01]).
 Proof. split; vm_compute; reflexivity. Qed.
 ''')
+
+PROPS['C06'] = dict(
+    title='C06 - malformed, truncated or failing input is always reported as ConstructError',
+    theorems=[
+        ('StreamFacts', 'iread_discipline', 'A read either succeeds or is StreamError.'),
+        ('StreamFacts', 'iread_exact', 'No value is produced from fewer bytes than requested: a successful read returns exactly the requested number of bytes.'),
+        ('StreamFacts', 'iread_short', 'A read past the end of the data is StreamError (at any position).'),
+        ('StreamFacts', 'iseek_discipline', 'A seek either succeeds or is StreamError.'),
+        ('StreamFacts', 'owrite_discipline', 'A write either succeeds or is StreamError (or exceeds the allocation bound of the model).'),
+        ('PrimFacts', 'bytesint_parse_short', 'BytesInteger of any width on truncated input: StreamError.'),
+        ('PrimFacts', 'varint_parse_truncated', 'VarInt whose every available byte has the continuation bit (every strict prefix of an encoding): StreamError.'),
+        ('RegionFacts', 'peek_failure_is_none', 'Peek recovers only from ConstructErrors other than ExplicitError.'),
+        ('RegionFacts', 'select_explicit_escapes', 'Select re-raises ExplicitError.'),
+        ('RegionFacts', 'greedy_explicit_escapes', 'GreedyRange re-raises ExplicitError.'),
+        ('SizeofFacts', 'sizeof_nokey', 'sizeof of every construct never leaks KeyError / AttributeError.'),
+    ],
+    examples='''
+Example C06_ex_truncated :
+  parse_bytes (CStruct [CRenamed [x61] (CFormat Big FH); CRenamed [x62] (CPadded (XConst (VInt 4)) CVarInt x00)]) [] [x00; x01; x81] = Err EStream (Some [[x62]]) /\\
+  parse_bytes (CStruct [CRenamed [x61] (CFormat Big FH); CRenamed [x62] (CPadded (XConst (VInt 4)) CVarInt x00)]) [] [x00; x01; x81; x00; x00] = Err EStream (Some [[x62]]).
+Proof. split; vm_compute; reflexivity. Qed.
+''')
